@@ -38,8 +38,10 @@ MUT13Q = [o for o in MUT13 if o not in ('set_name', 'h_copy', 'enable_deferred',
 ALLK2 = ['touch', 'write', 'mesh_assign', 'add_vertex', 'delete_vertex', 'h_drop', 'get_property', 'property_exists', 'clear', 'mesh_destroy']
 MUT13C = ['add_vertex', 'delete_vertex', 'set_vertex', 'write', 'clear', 'mesh_destroy']
 
+ALLKINDS = ['V', 'E', 'HE', 'F', 'HF', 'C', 'M']
+
 BASE = dict(NM=2, NS=7, NH=3, Kinds=['V'], Types=['int', 'bool'], Names=['', 'a'], MTypes=['poly'],
-            MaxV=2, MaxE=1, Overwrite=False)
+            MaxV=2, MaxE=1, Overwrite=False, Flavours=[0])
 
 def cfg(**kw):
     c = dict(BASE); c.update(kw); return c
@@ -53,6 +55,12 @@ CHECKS = {
             # three entity kinds
             cfg(name='kinds', Depth=2, SeedIds=[0, 5, 7], Kinds=['V', 'HE', 'M'], Types=['int'], Names=['', 'a', 'b'],
                 MaxV=2, MaxE=1, NM=3, NS=8, MTypes=['poly', 'tpoly'], Ops1=ALL14, Ops2=ALL14 + ['teardown'], OpsN=[]),
+            # the per-kind convenience API of ResourceManager.hh (every wrapper of every kind in the modes
+            # shared / private / persistent, the legacy request_* family, the PropertyPtr constructor, const overloads),
+            # followed by handle drop, mesh copy (judged with the C13 copy relation too), clear_<kind>_props, lookups
+            cfg(name='wrappers', props=['C14', 'C13'], Depth=3, SeedIds=[30], NM=2, NS=9, NH=2, Kinds=ALLKINDS, Types=['int'], Names=['a'],
+                MaxV=5, MaxE=7, Flavours=[1, 2, 3], Ops1=['request', 'create_shared', 'create_persistent', 'create_private'],
+                Ops2=['h_drop', 'mesh_copy', 'clear_props'], OpsN=['get_used', 'exists_used', 'h_drop', 'mesh_copy']),
             # destruction orders: handles / clear / mesh copies / mesh destruction, deeper
             cfg(name='lifetimes', Depth=3, SeedIds=[1, 2, 4], Kinds=['V'], Types=['int'], Names=['a'], Overwrite=True,
                 Ops1=LIFE, Ops2=LIFE, OpsN=['h_drop', 'mesh_destroy', 'clear', 'h_copy', 'mesh_assign', 'teardown']),
@@ -61,11 +69,15 @@ CHECKS = {
             cfg(name='registry', Depth=3, SeedIds=[0, 1, 2, 3, 6], Names=['', 'a', 'b'], Ops1=ALL14, Ops2=ALL14, OpsN=ALL14 + ['teardown']),
             cfg(name='kinds', Depth=3, SeedIds=[0, 5, 7], Kinds=['V', 'HE', 'M'], Types=['int', 'bool'], Names=['', 'a'], NM=3, NS=8, MTypes=['poly', 'tpoly'],
                 Ops1=ALL14, Ops2=ALL14, OpsN=ALL14 + ['teardown']),
+            cfg(name='wrappers', props=['C14', 'C13'], Depth=4, SeedIds=[30], NM=2, NS=10, NH=2, Kinds=ALLKINDS, Types=['int', 'bool'], Names=['a'],
+                MaxV=5, MaxE=7, Flavours=[0, 1, 2, 3], Ops1=['request', 'create_shared', 'create_persistent', 'create_private'],
+                Ops2=['h_drop', 'mesh_copy', 'clear_props', 'set_persistent', 'set_shared', 'request'],
+                OpsN=['get_used', 'exists_used', 'h_drop', 'mesh_copy', 'clear_props']),
             cfg(name='lifetimes', Depth=5, SeedIds=[1, 2, 4], Kinds=['V'], Types=['int'], Names=['a'], Overwrite=True, NM=3, NS=9,
                 Ops1=LIFE, Ops2=LIFE, OpsN=['h_drop', 'mesh_destroy', 'clear', 'mesh_assign', 'teardown']),
         ],
         sim=dict(ops=ALL14 + ['touch'], SeedIds=[0, 1, 2, 3, 4, 5, 6, 7], NM=3, NS=10, NH=4, Kinds=['V', 'HE', 'M', 'E', 'F', 'HF', 'C'], Types=['int', 'bool'],
-                 Names=['', 'a', 'b'], MTypes=['poly', 'tet', 'hex', 'tpoly', 'ttet', 'thex'], MaxV=3, MaxE=2),
+                 Names=['', 'a', 'b'], MTypes=['poly', 'tet', 'hex', 'tpoly', 'ttet', 'thex'], MaxV=3, MaxE=2, Flavours=[0, 1, 2, 3]),
     ),
     'C13': dict(
         props=['C13'],
@@ -107,7 +119,7 @@ CHECKS = {
                 OpsN=['mesh_assign', 'set_vertex', 'add_vertex', 'mesh_destroy', 'persist_pos', 'write']),
         ],
         sim=dict(ops=COPY + COPY + MUT13 + ['mesh_new', 'h_move', 'clear_all_props', 'persist_pos', 'touch'], SeedIds=[10, 11, 12, 13, 14, 15, 16, 17, 18, 20, 21, 22, 23, 24], NM=3, NS=14, NH=4,
-                 Kinds=['V', 'HE', 'M', 'E', 'F', 'HF', 'C'], Types=['int', 'bool'], Names=['', 'a'], MTypes=['poly', 'tet', 'hex', 'tpoly', 'ttet', 'thex'], MaxV=6, MaxE=8),
+                 Kinds=['V', 'HE', 'M', 'E', 'F', 'HF', 'C'], Types=['int', 'bool'], Names=['', 'a'], MTypes=['poly', 'tet', 'hex', 'tpoly', 'ttet', 'thex'], MaxV=6, MaxE=8, Flavours=[0, 1, 2, 3]),
     ),
 }
 
@@ -130,6 +142,7 @@ def write_cfg(path, c, check, emit):
              '  Ops1 = %s' % sset(c['Ops1']), '  Ops2 = %s' % sset(c['Ops2']), '  OpsN = %s' % sset(c['OpsN']),
              '  MaxV = %d' % c['MaxV'], '  MaxE = %d' % c['MaxE'],
              '  Overwrite = %s' % ('TRUE' if c['Overwrite'] else 'FALSE'),
+             '  Flavours = {%s}' % ', '.join(str(f) for f in c['Flavours']),
              '  Check = "%s"' % check, '  Emit = "%s"' % emit,
              'INVARIANT SeedOK', 'INVARIANT SimEmit', 'VIEW View', 'ACTION_CONSTRAINT EmitStep', 'CHECK_DEADLOCK FALSE']
     open(path, 'w').write('\n'.join(lines) + '\n')
@@ -299,18 +312,20 @@ def run_check(prop, tier, seed, replay=None):
 
     mach_errors = []
 
+    cur = dict(props=conf['props'])     # oracles evaluated for the configuration being run
+
     def stage(scripts, tag):
         """Execute + validate one stage.  A failure of the tooling on one shard must not lose the
         verdicts of the other shards (or of earlier stages): fall back to shard-by-shard."""
         try:
-            return [vlib.exec_and_validate(variant, scripts, conf['props'], work, tag, exe_name='props_exec', module='OVMPropsTrace.tla')]
+            return [vlib.exec_and_validate(variant, scripts, cur['props'], work, tag, exe_name='props_exec', module='OVMPropsTrace.tla')]
         except MachineryError as e:
             mach_errors.append('%s: %s' % (tag, e))
             log('%s stage %s: tooling failure, retrying shard by shard: %s' % (prop, tag, str(e)[:300]))
         out = []
         for i, sc in enumerate(scripts):
             try:
-                out.append(vlib.exec_and_validate(variant, [sc], conf['props'], work, '%s-s%d' % (tag, i), exe_name='props_exec',
+                out.append(vlib.exec_and_validate(variant, [sc], cur['props'], work, '%s-s%d' % (tag, i), exe_name='props_exec',
                                                   module='OVMPropsTrace.tla'))
             except MachineryError as e:
                 mach_errors.append('%s shard %d: %s' % (tag, i, e))
@@ -372,7 +387,11 @@ def run_check(prop, tier, seed, replay=None):
             if r['transitions'] and len(cov['samples']) < 4:
                 k, p = r['transitions'][len(r['transitions']) // 2]
                 cov['samples'].append(dict(config=mc['name'], seed_script=r['orgs'][k], calls=p))
+            cur['props'] = mc.get('props', conf['props'])
             agg = merged(stage(scripts, 'e%d' % n))
+            cur['props'] = conf['props']
+            for f in agg['failures'] + agg['crashes']:
+                f['props'] = mc.get('props', conf['props'])
             log('%s e%d: %d lines, %d checked, %d bad, %d drift, %d crashes' %
                 (prop, n, agg['lines'], agg['checked'], agg['bad'], agg['drift'], len(agg['crashes'])))
             absorb(agg)
@@ -434,7 +453,7 @@ def run_check(prop, tier, seed, replay=None):
         else:
             nconf += 1
             try:
-                p, again = replay_confirms(prop, conf['props'], variant, f, work, nconf)
+                p, again = replay_confirms(prop, f.get('props', conf['props']), variant, f, work, nconf)
             except MachineryError as e:
                 mach_errors.append('confirm %s: %s' % (sig['msg'], e))
                 p, again = f.get('script', ''), False
